@@ -168,6 +168,7 @@ type Obs struct {
 	Lines    map[string]any   `json:"lines,omitempty"`
 
 	// not serialised: for replay files and finding matching
+	base     []map[string]any // crafted initial log, if the store was not built by commands
 	hist     []Cmd
 	stderr   string
 	stdout   string
@@ -440,6 +441,7 @@ func parseReply(c Cmd, stdout []byte, ids *IDMap) Reply {
 
 // Stepper carries a store and its id map through a history.
 type Stepper struct {
+	Base []map[string]any
 	St   *Store
 	IDs  *IDMap
 	Gone map[string]bool
@@ -461,7 +463,7 @@ func (sp *Stepper) fork(root string) (*Stepper, error) {
 		g[k] = true
 	}
 	h := append([]Cmd(nil), sp.hist...)
-	return &Stepper{St: st, IDs: sp.IDs.copy(), Gone: g, last: sp.last, hist: h}, nil
+	return &Stepper{St: st, IDs: sp.IDs.copy(), Gone: g, last: sp.last, hist: h, Base: sp.Base}, nil
 }
 
 // step runs c and returns the observation record.
@@ -528,7 +530,7 @@ func (sp *Stepper) step(c Cmd, tag string) *Obs {
 
 	o := &Obs{Tag: tag, Cmd: c, Exit: res.Exit, Procs: []procRec{}, Readers: []readerRec{}, After: []afterRec{}, Readable: pre.Readable && post.Readable,
 		ListShow: len(pre.Mismatch) == 0 && len(post.Mismatch) == 0, Faithful: post.Faithful,
-		Pre:      rankView(pre.View, tab), Post: rankView(post.View, tab),
+		Pre: rankView(pre.View, tab), Post: rankView(post.View, tab),
 		LogPre: rankLog(plPre, tab), LogPost: rankLog(plPost, tab),
 		Facts: map[string]any{}, stderr: string(res.Stderr), stdout: string(res.Stdout), obsErr: post.Err,
 		rawPost: post, realArgv: args}
@@ -562,6 +564,7 @@ func (sp *Stepper) step(c Cmd, tag string) *Obs {
 		sp.Gone[id] = true
 	}
 	o.hist = append([]Cmd(nil), sp.hist...)
+	o.base = sp.Base
 	sp.hist = append(sp.hist, c)
 	sp.last = &post
 	return o
